@@ -537,3 +537,59 @@ Definition ideal_screen (md : mode) (bs : nat) (c : nat) : Z :=
   match md with Retro => 0 | Prosp => Z.of_nat (c / bs) end.
 Definition ideal_stamped (md : mode) (bs : nat) (c : nat) : step * Z * launch :=
   (step_of bs c, ideal_screen md bs c, ideal_launch md bs c).
+
+(* ---------- vocabulary of the source-translation link (harness/src_functions.py C19_*, Generated/SrcOrchestrate.v) ----------
+   The translated functions of nextflow/scripts/batchie.py compute over these values:
+     a path the script holds is the model value it denotes -
+       outdir                         the tree (fs) that is there when the function reads it
+       outdir/iter_<i>                iter_path  = (i, its plate directories)     (as globbed by examine)
+       outdir/iter_<i>/plate_<j>      plate_path = ((i, j), its files)            (as globbed by examine)
+       a path the script BUILDS with os.path.join(outdir, f"iter_{i}", f"plate_{j}") is the step (i, j); with one
+       component the iteration index i; the directory need not exist
+       a screen file                  spath
+     the metadata object json.load returns is its n_unobserved_plates entry (the only one the script reads)
+   Exceptions: sres.  SNamed = the two RuntimeErrors of examine that name a job directory; SRaised done why = any other
+   exception, raised after the file-system actions [done] of this call (why: 1 no test screen, 2 no thetas / distance
+   chunks, 9 None in a command line, 98 IndexError, 99 None where a value is needed). *)
+Inductive sres (A : Type) :=
+| SOk (a : A)
+| SNamed (why : Z) (s : step)
+| SRaised (done : list action) (why : Z).
+Arguments SOk {A} a.
+Arguments SNamed {A} why s.
+Arguments SRaised {A} done why.
+Definition sbind {A B} (r : sres A) (k : A -> sres B) : sres B :=
+  match r with SOk a => k a | SNamed w s => SNamed w s | SRaised d w => SRaised d w end.
+Notation "'dos' x <- e ; k" := (sbind e (fun x => k))
+  (at level 200, x pattern, e at level 100, k at level 200, right associativity).
+Fixpoint sfold {S A : Type} (f : S -> A -> sres S) (l : list A) (s : S) : sres S :=
+  match l with
+  | [] => SOk s
+  | a :: r => dos s' <- f s a; sfold f r s'
+  end.
+Definition sunwrap {A : Type} (o : option A) : sres A :=
+  match o with Some a => SOk a | None => SRaised [] 99 end.
+
+Definition iter_path := (Z * idir)%type.
+Definition plate_path := (step * pdir)%type.
+Definition iter_index (d : iter_path) : Z := fst d.                 (* dir_sort_key of outdir/iter_<i> *)
+Definition plate_index (p : plate_path) : Z := snd (fst p).         (* dir_sort_key of outdir/iter_<i>/plate_<j> *)
+(* glob.glob(outdir + "/iter_*"): the entries of the tree, in the order the tree lists them *)
+Definition glob_iters (f : fs) : list iter_path := f.
+(* glob.glob(iter_dir + "/plate_*") *)
+Definition glob_plates (d : iter_path) : list plate_path := map (fun p => ((fst d, fst p), snd p)) (snd d).
+(* sorted(l, key=k), the algorithm of sort_dirs for an arbitrary key *)
+Fixpoint insert_by {A} (key : A -> Z) (p : A) (l : list A) : list A :=
+  match l with
+  | [] => [p]
+  | q :: r => if key p <? key q then p :: q :: r else q :: insert_by key p r
+  end.
+Fixpoint sort_by {A} (key : A -> Z) (l : list A) : list A :=
+  match l with [] => [] | p :: r => insert_by key p (sort_by key r) end.
+(* validate_job_dir_and_return_meta / get_screen_from_job_output of a globbed plate directory *)
+Definition meta_of (p : plate_path) : option Z := f_meta (snd p).
+Definition screen_of_path (p : plate_path) : option spath := screen_of (Some p).
+
+(* the result of examine in the translation's monad *)
+Definition sres_of_xres {A} (r : xres A) : sres A :=
+  match r with XOk a => SOk a | XNamed w s => SNamed w s end.
